@@ -59,3 +59,28 @@ def c05_not_in_bound(case, out):
         return bool(val) and ((vmin is not None and vmin in val) or (vmax is not None and vmax in val)) \
             and not (vmin is not None and vmin == vmax)
     return sig.startswith("lost|") and sig.endswith("|notin_bound")
+
+
+@predicate
+def c13_not_in_bound(case, out):
+    """Same root cause as C05-not-in-bound: the row group is pruned before rows are looked at."""
+    return out["sig"].startswith("lost_rows|") and out["sig"].endswith("|notin_bound")
+
+
+def _v2_rowfilter_region(case):
+    """data page v2 + row selection, where the chunk has nulls or several pages."""
+    if case["opts"].get("dpv", 1) != 2:
+        return False
+    from vf import cases
+    fr = case["frame"]
+    return (bool(case["opts"].get("page_size")) or any(cases.has_missing(c, fr["n"]) for c in fr["cols"])
+            or any(c["kind"] == "category" for c in fr["cols"]))
+
+
+@predicate
+def c13_v2_rowfilter(case, out):
+    sig = out["sig"]
+    if not _v2_rowfilter_region(case):
+        return False
+    return ("read_data_page_v2" in sig or sig.startswith(("alignment|", "mask_alignment|", "mask_rows", "lost_rows|",
+                                                         "extra_rows|", "duplicate_rows|", "order")))
